@@ -34,23 +34,26 @@ EVAL = {
         "part": (np.array([[0.12, 0.22], [2.0, 0.5], [0.85, 0.8], [-1.0, 0.3]]), np.array([0, 1, 1, 0])),
         "out": (np.array([[2.0, 0.5], [-1.0, 0.3]]), np.array([1, 0])),
         "unl": (np.array([[0.12, 0.22], [0.85, 0.8], [0.5, 0.5]]), np.array([0, -1, 2])),
+        "single": (np.array([[0.3, 0.7]]), np.array([1])),
     },
     "two_classes_2d_unlabelled": {
         "in": (np.array([[-0.8, 2.1], [3.0, 5.5], [1.0, 4.0]]), np.array([0, 1, 1])),
         "part": (np.array([[-0.8, 2.1], [9.0, 5.0], [3.0, 5.5], [0.0, -4.0]]), np.array([0, 1, 1, 0])),
         "out": (np.array([[9.0, 5.0], [0.0, -4.0]]), np.array([1, 0])),
         "unl": (np.array([[-0.8, 2.1], [3.0, 5.5], [1.0, 4.0]]), np.array([-1, 1, -1])),
+        "single": (np.array([[1.0, 4.0]]), np.array([0])),
     },
     "two_classes_1d": {
         "in": (np.array([[0.3], [3.2], [2.0]]), np.array([0, 1, 1])),
         "part": (np.array([[0.3], [7.0], [3.2]]), np.array([0, 1, 1])),
         "out": (np.array([[7.0], [-2.0]]), np.array([1, 0])),
         "unl": (np.array([[0.3], [3.2]]), np.array([-1, 1])),
+        "single": (np.array([[2.0]]), np.array([1])),
     },
 }
 # "own": the classifier's own testing part handed back as it is returned (already under the learning scaling);
 # "own_reverted": the same DataSet after revert_scaling() (raw again)
-OPS = [(k, n) for k in ("call", "test") for n in ("in", "part", "out", "unl", "own", "own_reverted")]
+OPS = [(k, n) for k in ("call", "test") for n in ("in", "part", "out", "unl", "single", "own", "own_reverted")]
 OBSERVED = []      # what the implementation returned in the current case (classes / summaries), for the outcome fingerprint
 
 
@@ -273,7 +276,7 @@ def main(ctx):
                   "alphabet": [list(o) for o in OPS]}
     return ctx.finish(
         rule="one case = learning configuration x first operation; inside it ALL call sequences of the stated depth over {__call__, "
-             "test_data} x {inside, partly outside, entirely outside, with unlabelled, the classifier's own testing part as returned, the same reverted} are executed on freshly learned objects and the "
+             "test_data} x {inside, partly outside, entirely outside, with unlabelled, a single sample, the classifier's own testing part as returned, the same reverted} are executed on freshly learned objects and the "
              "first evaluation is repeated at the end (evaluations = sequences)",
         assumptions=["the expected class uses reference densities computed from the stored surpluses with independently evaluated hats, under "
                      "the scaling fixed at learning time; the library's own density at the same points must agree with them; samples whose two best densities are within 1e-9 are treated as ties (either class accepted)",
